@@ -103,41 +103,44 @@ macro_rules! bodies {
             let x = s.u16();
             let got = $P::<N>::from_p16e1(P16E1::from_bits(x)).to_bits();
             let got2 = $P::<N>::from(P16E1::from_bits(x)).to_bits();
-            cover!(N <= 2 || (got >> (32 - N)) & 1 == 1 && x & 0xf != 0);
+            cover!(N <= 2 || x & 1 == 1);
             cmp_n(N, got, r::p2p(16, 1, N, $es, x as u32)).and(Outcome::eq(got2 as u64, got as u64))
         }
         pub fn from_p8<const N: u32, S: Src>(s: &mut S) -> Outcome {
             let x = s.u8();
             let got = $P::<N>::from_p8e0(P8E0::from_bits(x)).to_bits();
             let got2 = $P::<N>::from(P8E0::from_bits(x)).to_bits();
-            cover!(N <= 2 || (got >> (32 - N)) & 1 == 1 && x & 0x3 != 0);
+            cover!(N <= 2 || x & 1 == 1);
             cmp_n(N, got, r::p2p(8, 0, N, $es, x as u32)).and(Outcome::eq(got2 as u64, got as u64))
         }
     };
 }
 pub mod pxe2 {
     bodies!(PxE2, 2, to_pxe2);
-    pub fn from_ints<const N: u32, S: Src>(s: &mut S) -> Outcome {
+    /// K: 0 from_u64, 1 from_i64, 2 from_u32, 3 from_i32 (inherent and From spellings)
+    pub fn from_int<const N: u32, const K: u32, S: Src>(s: &mut S) -> Outcome {
         let v = s.u64();
         cover!(N <= 2 || v > 1000 && r::from_u64(N, 2, v) & 1 == 1);
-        cmp_n(N, PxE2::<N>::from_u64(v).to_bits(), r::from_u64(N, 2, v))
-            .and(cmp_n(N, PxE2::<N>::from_i64(v as i64).to_bits(), r::from_i64(N, 2, v as i64)))
-            .and(cmp_n(N, PxE2::<N>::from_u32(v as u32).to_bits(), r::from_u64(N, 2, v as u32 as u64)))
-            .and(cmp_n(N, PxE2::<N>::from_i32(v as i32).to_bits(), r::from_i64(N, 2, v as i32 as i64)))
-            .and(cmp_n(N, PxE2::<N>::from(v).to_bits(), r::from_u64(N, 2, v)))
-            .and(cmp_n(N, PxE2::<N>::from(v as i32).to_bits(), r::from_i64(N, 2, v as i32 as i64)))
+        match K {
+            0 => cmp_n(N, PxE2::<N>::from_u64(v).to_bits(), r::from_u64(N, 2, v)).and(cmp_n(N, PxE2::<N>::from(v).to_bits(), r::from_u64(N, 2, v))),
+            1 => cmp_n(N, PxE2::<N>::from_i64(v as i64).to_bits(), r::from_i64(N, 2, v as i64)).and(cmp_n(N, PxE2::<N>::from(v as i64).to_bits(), r::from_i64(N, 2, v as i64))),
+            2 => cmp_n(N, PxE2::<N>::from_u32(v as u32).to_bits(), r::from_u64(N, 2, v as u32 as u64)).and(cmp_n(N, PxE2::<N>::from(v as u32).to_bits(), r::from_u64(N, 2, v as u32 as u64))),
+            _ => cmp_n(N, PxE2::<N>::from_i32(v as i32).to_bits(), r::from_i64(N, 2, v as i32 as i64)).and(cmp_n(N, PxE2::<N>::from(v as i32).to_bits(), r::from_i64(N, 2, v as i32 as i64))),
+        }
     }
-    /// PxE2<M> -> PxE2<N> and PxE2<M> -> PxE1<N>
-    pub fn to_generic<const M: u32, const N: u32, S: Src>(s: &mut S) -> Outcome {
+    /// K = 0: PxE2<M> -> PxE2<N>;  K = 1: PxE2<M> -> PxE1<N>
+    pub fn to_generic<const M: u32, const N: u32, const K: u32, S: Src>(s: &mut S) -> Outcome {
         let x = match draw::<M, S>(s) {
             Some(x) => x,
             None => return Outcome::skip(),
         };
         let p = mk::<M>(x);
         cover!(M <= 2 || x & 1 == 1);
-        cmp_n(N, PxE2::<N>::from_pxe2(p).to_bits(), r::p2p(M, 2, N, 2, x))
-            .and(cmp_n(N, p.to_pxe1::<N>().to_bits(), r::p2p(M, 2, N, 1, x)))
-            .and(cmp_n(N, softposit::PxE1::<N>::from(p).to_bits(), r::p2p(M, 2, N, 1, x)))
+        if K == 0 {
+            cmp_n(N, PxE2::<N>::from_pxe2(p).to_bits(), r::p2p(M, 2, N, 2, x))
+        } else {
+            cmp_n(N, p.to_pxe1::<N>().to_bits(), r::p2p(M, 2, N, 1, x)).and(cmp_n(N, softposit::PxE1::<N>::from(p).to_bits(), r::p2p(M, 2, N, 1, x)))
+        }
     }
     /// Q32E2 -> PxE2<N> on an arbitrary state; PxE2<N> -> Q32E2 -> PxE2<N> round trip
     pub fn from_quire<const N: u32, S: Src>(s: &mut S) -> Outcome {
@@ -160,14 +163,17 @@ pub mod pxe2 {
 }
 pub mod pxe1 {
     bodies!(PxE1, 1, to_pxe1);
-    pub fn from_ints<const N: u32, S: Src>(s: &mut S) -> Outcome {
+    /// K: 0 from_u64, 3 from_i32 (from_i64 and from_u32 are todo!() stubs)
+    pub fn from_int<const N: u32, const K: u32, S: Src>(s: &mut S) -> Outcome {
         let v = s.u64();
         cover!(N <= 2 || v > 1000 && r::from_u64(N, 1, v) & 1 == 1);
-        cmp_n(N, PxE1::<N>::from_u64(v).to_bits(), r::from_u64(N, 1, v))
-            .and(cmp_n(N, PxE1::<N>::from_i32(v as i32).to_bits(), r::from_i64(N, 1, v as i32 as i64)))
+        match K {
+            0 => cmp_n(N, PxE1::<N>::from_u64(v).to_bits(), r::from_u64(N, 1, v)),
+            _ => cmp_n(N, PxE1::<N>::from_i32(v as i32).to_bits(), r::from_i64(N, 1, v as i32 as i64)),
+        }
     }
-    /// PxE1<M> -> PxE2<N>
-    pub fn to_generic<const M: u32, const N: u32, S: Src>(s: &mut S) -> Outcome {
+    /// PxE1<M> -> PxE2<N> (K unused)
+    pub fn to_generic<const M: u32, const N: u32, const K: u32, S: Src>(s: &mut S) -> Outcome {
         let x = match draw::<M, S>(s) {
             Some(x) => x,
             None => return Outcome::skip(),
